@@ -6,6 +6,7 @@
 //         <tol> MAT <ParLit> VECS <nv> (n numbers)*nv OPS <nops> (op args)*
 //   cls     seqrs | seqsa | parrs | parsa          (sequential classes only when run on one process)
 //   ops     C xi bi          x = vec xi, b = vec bi; ml->cycle(x, b)                       -> OUT k <x>
+//           CD xi bi         as C, then the level vectors left behind: SX k l <levels[l]->x>, SB k l <levels[l]->b>, l >= 1
 //           CC xi bi k       k successive cycles on the same (x, b)                          -> OUT k <x>
 //           S xi bi maxit    ml->solve(x, b) with max_iterations = maxit                    -> OUT k <x>, ITER k it, RES k r0..r_it
 //           K xi bi          PCG(A, ml, x, b, res, 1e-10, 4)          (distributed classes)  -> OUT k <x>
@@ -105,13 +106,16 @@ static void run_case(const std::string& cid, Toks& t) {
             Vector x(lit.nr), b(lit.nr);
             for (int i = 0; i < lit.nr; i++) { x[i] = vecs[xi][i]; b[i] = vecs[bi][i]; }
             std::string b_before = bits_of(b);
-            if (op == "C") ml->cycle(x, b, 0);
+            if (op == "C" || op == "CD") ml->cycle(x, b, 0);
             else if (op == "CC") { int kk = t.next_int(); for (int q = 0; q < kk; q++) ml->cycle(x, b, 0); }
             else if (op == "S") { int maxit = t.next_int(); int it = ml->solve(x, b, maxit);
                 std::ostringstream s; s << k << " " << it; emit0(cid, "ITER", s.str());
                 emit0(cid, "RES", ks.str() + " " + nums_str(ml->residuals, std::min((int)ml->residuals.size(), it + 1))); }
             else throw std::runtime_error("op " + op + " not available for the sequential classes");
             emit0(cid, "OUT", "@0 " + ks.str() + " " + nums_str(x.data(), x.size()));
+            if (op == "CD") for (int l = 1; l < L; l++) { std::ostringstream ls; ls << "@0 " << k << " " << l << " ";
+                emit0(cid, "SX", ls.str() + nums_str(ml->levels[l]->x.data(), ml->levels[l]->x.size()));
+                emit0(cid, "SB", ls.str() + nums_str(ml->levels[l]->b.data(), ml->levels[l]->b.size())); }
             emit0(cid, "BOK", ks.str() + (bits_of(b) == b_before ? " 1" : " 0"));
         }
         std::string h_after;
@@ -157,7 +161,7 @@ static void run_case(const std::string& cid, Toks& t) {
         ParVector x(lit.nr, nloc), b(lit.nr, nloc);
         fill_parvec(x, first, vecs[xi]); fill_parvec(b, first, vecs[bi]);
         std::string b_before = bits_of(b.local);
-        if (op == "C") ml->cycle(x, b);
+        if (op == "C" || op == "CD") ml->cycle(x, b);
         else if (op == "CC") { int kk = t.next_int(); for (int q = 0; q < kk; q++) ml->cycle(x, b); }
         else if (op == "S") { ml->max_iterations = t.next_int(); int it = ml->solve(x, b);
             std::ostringstream s; s << k << " " << it; emit0(cid, "ITER", s.str());
@@ -166,6 +170,9 @@ static void run_case(const std::string& cid, Toks& t) {
         else if (op == "B") { std::vector<double> res; Pre_BiCGStab(A, x, b, ml, res, 1e-10, 3); }
         else throw std::runtime_error("op " + op);
         emit_all(cid, "OUT", ks.str() + " " + parvec_str(x));
+        if (op == "CD") for (int l = 1; l < L; l++) { std::ostringstream ls; ls << k << " " << l << " ";
+            emit_all(cid, "SX", ls.str() + parvec_str(ml->levels[l]->x));
+            emit_all(cid, "SB", ls.str() + parvec_str(ml->levels[l]->b)); }
         int ok = bits_of(b.local) == b_before ? 1 : 0, all_ok = 0;
         MPI_Allreduce(&ok, &all_ok, 1, MPI_INT, MPI_MIN, MPI_COMM_WORLD);
         emit0(cid, "BOK", ks.str() + (all_ok ? " 1" : " 0"));
